@@ -91,6 +91,7 @@ async fn run_scenario(sc: Value, agent: String, acceptor: tokio_rustls::TlsAccep
                               "expect": run["expect"], "irr_mode": irr_mode, "faults": run["faults"],
                               "twin": twin, "style": flags.join("+")}));
         let mut cmd = tokio::process::Command::new(&agent);
+        vh::util::die_with_parent(&mut cmd);
         let local = run["target"].as_str() == Some("local") || sc["target"].as_str() == Some("local");
         if local {
             // the agent's local target: it spawns /usr/sbin/cli (a shim installed by bin/setup that execs
@@ -185,6 +186,7 @@ async fn run_daemon_scenario(sc: Value, agent: String, acceptor: tokio_rustls::T
     junos.state.lock().unwrap().caps11 = sc["caps11"].as_bool().unwrap_or(false);
     set_inputs(1, &junos, &irrd);
     let mut cmd = tokio::process::Command::new(&agent);
+    vh::util::die_with_parent(&mut cmd);
     cmd.args(["-f", &period.to_string(), "--irrd-host", "127.0.0.1", "--irrd-port", &irrd.addr.port().to_string(), "--ephemeral-db", &inst,
               "remote", "--netconf-host", "127.0.0.1", "--netconf-port", &junos.addr.port().to_string(),
               "--ca-cert-path", &pki("ca.crt"), "--client-cert-path", &pki("client.crt"), "--client-key-path", &pki("client.key"),
